@@ -68,6 +68,50 @@ fn fail_overflow() {
     kani::cover!(true, "END: harness ran to completion");
 }
 
+/// growing / reserving by a HUGE amount that still forms a valid Layout (<= isize::MAX, far more than the block's own
+/// address): Err without panicking, arena exactly where it was (fourth-round seeded change: the downward in-place
+/// grow computed `addr - additional_size` without saturation)
+fn fail_huge_grow<const UP: bool>() {
+    set_budget(1);
+    let Ok(bump) = Bump::<VA, S<1, UP>>::try_new() else { return };
+    let mut bump = core::mem::ManuallyDrop::new(bump);
+    set_budget(0);
+    let w1 = Win::of(bump.stats().current_chunk().unwrap());
+    let lb = any_layout(8, 0);
+    kani::assume(lb.size() > 0);
+    let Ok(b) = bump.allocate(lb) else { return };
+    let b = b.cast::<u8>();
+    let (vb, ib): (u8, usize) = (kani::any(), kani::any());
+    kani::assume(ib < lb.size());
+    unsafe { w1.write(addr(b) + ib, vb) };
+    let pos0 = addr(bump.stats().current_chunk().unwrap().bump_position());
+    let n: usize = kani::any();
+    kani::assume(n >= (1usize << 32) && n <= isize::MAX as usize);
+    let ln = Layout::from_size_align(n, 1).unwrap();
+    let zeroed: bool = kani::any();
+    let r = if zeroed { unsafe { bump.grow_zeroed(b, lb, ln) } } else { unsafe { bump.grow(b, lb, ln) } };
+    check!(r.is_err(), "C07: growing the newest block to a size no chunk can hold succeeded");
+    check!(addr(bump.stats().current_chunk().unwrap().bump_position()) == pos0, "C07: a failed huge grow moved the bump position");
+    check!(unsafe { w1.read(addr(b) + ib) } == vb, "C07: a failed huge grow changed the block");
+    check!(bump.stats().count() == 1, "C07: a failed huge grow changed the chunk list");
+    kani::cover!(n == isize::MAX as usize, "grow to isize::MAX bytes");
+    kani::cover!(true, "END: harness ran to completion");
+}
+
+#[kani::proof]
+#[kani::unwind(6)]
+#[kani::stub(std::alloc::handle_alloc_error, crate::stubs::hae_stub)]
+fn fail_huge_grow_down1() {
+    fail_huge_grow::<false>();
+}
+
+#[kani::proof]
+#[kani::unwind(6)]
+#[kani::stub(std::alloc::handle_alloc_error, crate::stubs::hae_stub)]
+fn fail_huge_grow_up1() {
+    fail_huge_grow::<true>();
+}
+
 /// a request that needs a new chunk while the base allocator refuses: Err, earlier block and position intact,
 /// chunk list unchanged, a later request that fits still succeeds
 fn fail_switch_body<St: BumpAllocatorSettings>()
